@@ -262,6 +262,18 @@ theorem C05_retry_reaches_healthy (c : Cfg) (robin : Nat) (hm : mustSucceed c = 
     (serve c robin).1 = .success :=
   serve_success C05_select_sound_for_retry C05_select_complete_for_retry c robin hm
 
+/-- Backends that come back.  Whatever state the backends are in when the request arrives (all of
+them may be out of rotation but one, which then fails) and however their state changes while it is
+served: with retries enabled, backends that only fail or answer and the time budget of
+`RetrySpec.budgetLate` (max_fails · #backends that can fail · try_interval < try_duration,
+try_duration + try_interval ≤ fail_timeout), the request is NOT left unanswered while a backend that
+always answers is in rotation — if such a backend is there once the attempts of the run have been
+made (`goodAfter`: in the state it arrived in, or the state the changes during those attempts
+gave it), the run ended with its answer.  The loop gives up only when nobody is left. -/
+theorem C05_retry_answered_when_backend_returns (c : Cfg) (robin : Nat)
+    (hm : mustSucceedAfter c (serve c robin).2.length = true) : (serve c robin).1 = .success :=
+  serve_late C05_select_sound_for_retry C05_select_complete_for_retry c robin hm
+
 /-- Every attempt reads the complete original body — when the body is buffered (more than one
 backend CONFIGURED: `c.hosts.length`, the size of the pool) or there is only one attempt
 (try_duration 0).  `c` ranges over every state of the backends when the request arrives
@@ -315,12 +327,16 @@ theorem C05_retry_model_verdict_ok_partial (c : Cfg) (robin : Nat)
     cases hm : mustSucceed c with
     | false => rfl
     | true => simp [C05_retry_reaches_healthy c robin hm]
+  have h1' : (mustSucceedAfter c (serve c robin).2.length && (serve c robin).1 != .success) = false := by
+    cases hm : mustSucceedAfter c (serve c robin).2.length with
+    | false => rfl
+    | true => simp [C05_retry_answered_when_backend_returns c robin hm]
   have h2 := C05_retry_body_complete_partial c robin h
   have h3 : (neverAvailable c && ((serve c robin).1 != .badGateway || !(serve c robin).2.isEmpty)) = false := by
     cases hn : neverAvailable c with
     | false => rfl
     | true => simp [C05_gives_up_502 c robin hn hI]
-  simp [h1, h2, h3]
+  simp [h1, h1', h2, h3]
 
 /-! Non-vacuity of the retry hypotheses: three backends, the first two failing (one of them only
 after reading the body), max_fails 2, round robin — the request is answered by backend 2 after
@@ -349,6 +365,13 @@ example : serve { recoveryExample with hosts := [⟨false, 0, [.fail true], 0⟩
     (.success, [⟨0, .full⟩, ⟨1, .full⟩]) := by decide
 example : serve { recoveryExample with maxFails := 2, hosts := [⟨false, 0, [.fail true, .ok], 0⟩, ⟨true, 0, [.ok], 0⟩], events := [] } 0 =
     (.success, [⟨0, .full⟩, ⟨0, .full⟩]) := by decide
+/-- ... and of `C05_retry_answered_when_backend_returns`: after the two attempts of the run backend 1 is healthy;
+on arrival (no attempt made) nobody that always answers is in rotation -/
+example : mustSucceedAfter recoveryExample (serve recoveryExample 0).2.length = true := by decide
+example : mustSucceedAfter recoveryExample 0 = false := by decide
+/-- the backend does not come back: the run ends with 502 after the one attempt, nobody healthy is left -/
+example : serve { recoveryExample with events := [] } 0 = (.badGateway, [⟨0, .full⟩]) ∧
+    mustSucceedAfter { recoveryExample with events := [] } 1 = false := by decide
 /-- the hypotheses of `C05_retry_body_complete_partial` and `C05_retry_model_verdict_ok_partial` hold for it -/
 example : recoveryExample.hosts.length > 1 ∨ recoveryExample.tryDuration = 0 := by decide
 /-- a healthy backend next to backends that are out on arrival and change state: `mustSucceed` -/
